@@ -439,14 +439,17 @@ func (s *Sim) handleDecision(h *Hand, d *Decision) bool {
 		if s.Stall != "" {
 			return false
 		}
-		for retry := 0; len(d.Asked) == 0 && retry < 100; retry++ {
+		for deadline := time.Now().Add(s.StepWait); len(d.Asked) == 0 && time.Now().Before(deadline); {
 			// a snapshot taken by the harness itself (PushSnapshot) can catch the hand between
-			// the request being queued and the table-side handler marking who is asked
+			// the request being queued and the table-side handler marking who is asked; under
+			// load that gap can last many milliseconds, so this waits as long as any other step
 			time.Sleep(500 * time.Microsecond)
 			fresh := s.Now()
 			fgs := fresh.State.GameState
 			if fgs == nil || fgs.GameID != gs.GameID || fgs.Status.CurrentEvent != gs.Status.CurrentEvent {
-				break
+				// the hand has moved on by itself: this snapshot is obsolete, later ones are queued
+				s.Label("obsolete_group_request_skipped")
+				return true
 			}
 			for _, p := range fgs.Players {
 				for _, a := range p.AllowedActions {
